@@ -287,8 +287,13 @@ class Plan:
         if slot_map is not None:
             self.slot = dict(slot_map)
         else:
-            for i, (_g, _b, h) in enumerate(sorted(buf)):
-                self.slot[h] = i
+            # naga: all bound buffers sorted by (group, binding) get consecutive indices; two globals with the same
+            # (group, binding) (used by different entry points) share the index of the LAST of them
+            last = {}
+            for i, (g_, b_, h) in enumerate(sorted(buf)):
+                last[(g_, b_)] = i
+            for (g_, b_, h) in buf:
+                self.slot[h] = last[(g_, b_)]
 
     def builtin_values(self, k):
         wg = self.ep.get("Workgroup") or [1, 1, 1]
@@ -424,7 +429,7 @@ def check_layout(T, ir, ast, layout, plan, ep_fn):
         if p["attr"] and p["attr"][0] == "buffer":
             by_slot[p["attr"][1]] = p
     for h, sp, b, ty in plan.globals:
-        if h in plan.slot and plan.slot[h] in by_slot and sp in ("SpaceStorage", "SpaceUniform"):
+        if h in plan.used and h in plan.slot and plan.slot[h] in by_slot and sp in ("SpaceStorage", "SpaceUniform"):
             walk(ty, by_slot[plan.slot[h]]["ty"], ir["GlobalVariables"][h]["Name"])
     return bad, checked[0]
 
